@@ -27,9 +27,9 @@ EPS = 2.0 ** -30
 BOT = -999  # abstraction failure marker; no specification action accepts it
 
 FILEMAP = {"out.h5": "o0", "out.h5.tmp": "t0", "out-1.h5": "o1", "out-1.h5.tmp": "t1",
-           "out-2.h5": "o2", "out-2.h5.tmp": "t2"}
+           "out-2.h5": "o2", "out-2.h5.tmp": "t2", "out-3.h5": "o3", "out-3.h5.tmp": "t3"}
 TEMPMAP = {"output.h5": "o0", "output.h5.tmp": "t0"}
-NAMES = ["o0", "t0", "o1", "t1", "o2", "t2"]
+NAMES = ["o0", "t0", "o1", "t1", "o2", "t2", "o3", "t3"]
 FOREIGN_BYTES = b"\x89HDF\r\n\x1a\nforeign file, do not touch" * 7
 
 _DEV = {}
@@ -383,7 +383,7 @@ def replay(tdgl, script: Script, base_tmp: str | None = None):
                            "exc": type(e).__name__})
             raise
         name = os.path.basename(self.output_path or "")
-        serial = {"out.h5": 0, "out-1.h5": 1, "out-2.h5": 2, "output.h5": 0}.get(name, BOT)
+        serial = {"out.h5": 0, "out-1.h5": 1, "out-2.h5": 2, "out-3.h5": 3, "output.h5": 0}.get(name, BOT)
         events.append({"ev": "open", "serial": serial, "fs": fs_state(sandbox, tempd, cfg["out"], foreign)})
         return r
 
